@@ -1,0 +1,7 @@
+//! Re-exports of `pub` items that live in crate-private modules.
+pub use crate::be::dbentry::{DbBackup, DbEntry};
+pub use crate::be::dbvalue::DbValueSetV2;
+pub use crate::repl::entry::{EntryChangeState, State};
+pub use crate::be::idxkey::{IdxKey, IdxSlope};
+pub use crate::filter::verif as filter;
+pub use crate::entry::verif as entry;
